@@ -111,7 +111,7 @@ struct PkgEngine : Engine {
 		int ndocs = (int)w.range(1, 2);
 		Json docs = Json::array();
 		for (int d = 0; d < ndocs; d++) {
-			DocOpts o; o.toc = false; o.html = w.chance(1, 2); o.emails = w.chance(1, 3); o.critic = false;
+			DocOpts o; o.toc = w.chance(1, 3); o.html = w.chance(1, 2); o.emails = w.chance(1, 3); o.critic = false;
 			o.blocks_max = 7;
 			for (auto & u : urls) if (u != "style.css") { o.image_urls.push_back(u); if (w.chance(1, 4)) o.image_urls.push_back("./" + u); }
 			if (w.chance(1, 5)) o.image_urls.push_back("http://example.com/remote.png");
@@ -127,6 +127,8 @@ struct PkgEngine : Engine {
 				o.meta = false;
 			}
 			std::string body = gen_doc(w, o);
+			if (o.toc && w.chance(1, 2)) body = "{{TOC}}\n\n" + body;
+			if (!o.image_urls.empty() && w.chance(1, 4)) body = "![cover](" + o.image_urls[w.below(o.image_urls.size())] + ")\n\n" + body;      // a cover image before the first heading
 			// raw filters and header-level metadata legitimately differ between EPUB and HTML
 			size_t rp;
 			while ((rp = body.find("{=")) != std::string::npos) body.replace(rp, 2, "{-");
@@ -147,6 +149,7 @@ struct PkgEngine : Engine {
 			o["doc"] = (int64_t)w.below((uint64_t)ndocs);
 			unsigned long ext = gen_ext(w, true) & ~(X_SNIPPET | X_COMPATIBILITY | X_NO_METADATA | X_CRITIC_ACCEPT | X_CRITIC_REJECT);
 			if (w.chance(1, 3)) ext |= X_RANDOM_FOOT;
+			else if (w.chance(1, 3)) ext |= X_RANDOM_LABELS;      // the other library-side srand (one per heading label)
 			o["ext"] = (int64_t)ext;
 			o["lang"] = (int64_t)w.below(7);
 			unsigned dk = (unsigned)w.below(6);
